@@ -7,7 +7,7 @@ for fn in sys.argv[1:]:
     for line in open(fn, errors="replace"):
         m = re.match(r"\[(C\d\d)\] thorough tier: (\d+) paths, (\d+) VCs, (\d+) violations, (\d+) known, (\d+) unconfirmed, (\d+) harness errors, ([\d.]+)s -> exit (\d+)", line)
         if m:
-            th[m.group(1)] = dict(paths=int(m.group(2)), vcs=int(m.group(3)), wall=float(m.group(8)), exit=int(m.group(9)), partial=False)
+            th.setdefault(m.group(1), {}).update(paths=int(m.group(2)), vcs=int(m.group(3)), wall=float(m.group(8)), exit=int(m.group(9)))
         m = re.match(r"BOUND-NOT-EXHAUSTED property=(C\d\d)", line)
         if m:
             th.setdefault(m.group(1), {})["partial_seen"] = True
